@@ -534,10 +534,13 @@ Inductive aval :=
 | AStr (s : list N)               (* readable C string with these bytes *)
 | ANull                           (* NULL string pointer *)
 | ABad (a : N)                    (* unreadable string pointer *)
-| ASym (nm : list N)              (* pointer to the start of this function *)
+| ASym (addr : N) (nm : list N)   (* pointer to the start of this function *)
 | AFlt (bits : N)
 | AStruct
-| ATxt (cands : list (list N)).   (* end-to-end runs: the renderings of the C-level value, stated by the driver *)
+| ATxt (cands : list (list N))    (* end-to-end runs: the renderings of the C-level value, stated by the driver *)
+| AScr (ints : list Z) (strs : list (list N)) (flts : list (N * N))
+                                  (* end-to-end runs, scripts: the integers / strings / floats (size, bits) that denote the value *)
+| AAnyInt.                        (* end-to-end runs, scripts: an address the driver cannot know *)
 
 Definition trunc_str (s : list N) : list N :=
   if lenN s <=? ARG_STR_MAX then s else takeN (ARG_STR_MAX - 3) s ++ [46; 46; 46].
@@ -561,10 +564,12 @@ Definition accept (s : spec) (a : aval) : list (list N) :=
       [quote ++ t ++ quote ++ sfx; quote ++ flat_map escaped_char t ++ quote ++ sfx]
   | ANull => [quote ++ null_str ++ quote ++ (match s_fmt s with FStdStr => [115] | _ => [] end); null_str]
   | ABad p => [quote ++ bad_ptr_text p ++ quote ++ (match s_fmt s with FStdStr => [115] | _ => [] end)]
-  | ASym nm => [38 :: nm]
+  | ASym _ nm => [38 :: nm]
   | AFlt _ => []                  (* judged through `dump` (bits), not through the text *)
   | AStruct => [s_name s ++ [123; 46; 46; 46; 125]; s_name s ++ [123; 125]; [123; 46; 46; 46; 125]; [123; 125]]
   | ATxt cands => cands
+  | AScr _ _ _ => []
+  | AAnyInt => []
   end.
 
 (* bytes the value needs in the payload (independent restatement of the format) *)
@@ -631,6 +636,205 @@ Record judged := { j_args : list (spec * aval); j_ret : list (spec * aval); j_ob
 Definition ok_call (j : judged) : bool :=
   ok_args (j_args j) (o_args_text (j_obs j)) && ok_ret (j_ret j) (o_ret_text (j_obs j)).
 
+(* ------------------------------------------------------------------ the script readers *)
+(* utils/script-python.c and utils/script-luajit.c setup_argument_context: a second decoder of the same bytes
+   (of task->args.data at analysis time, of the frame's argument buffer at record time).  What it hands to the
+   interpreter, before the language's own conversion: *)
+Inductive sitem :=
+| VInt (size raw : N)              (* integer-class formats d i u x o p e: the low `size` bytes *)
+| VFlt (size raw : N)              (* float formats: the raw bytes (analysis time only) *)
+| VStr (b : list N)                (* a C string: string, char, "struct: name{}" *)
+| VNone.                           (* nothing is inserted (integer size not 1, 2, 4, 8) *)
+
+Definition struct_text (nm : list N) : list N := [115; 116; 114; 117; 99; 116; 58; 32] ++ nm ++ [123; 125].  (* "struct: %s{}" *)
+
+Definition script_one (s : spec) (data : list N) : sitem * N :=
+  let size := s_size s in
+  match s_fmt s with
+  | FStr | FStdStr =>
+      let slen := of_le (takeN 2 data) in
+      let body := takeN slen (dropN 2 data) in
+      (VStr (if (slen =? 4) && list_eqb body [255; 255; 255; 255] then null_str else cstr body), ALIGN (slen + 2) 4)
+  | FChar => (VStr (cstr [nthN data 0]), ALIGN size 4)
+  | FFloat => (VFlt size (of_le (takeN size data)), ALIGN size 4)
+  | FStruct => (VStr (struct_text (s_name s)), ALIGN size 4)
+  | _ => ((if (size =? 1) || (size =? 2) || (size =? 4) || (size =? 8) then VInt size (of_le (takeN size data)) else VNone),
+          ALIGN size 4)
+  end.
+
+Fixpoint script_loop (is_ret : bool) (specs : list spec) (data : list N) : list sitem :=
+  match specs with
+  | [] => []
+  | s :: r =>
+      if negb (Bool.eqb is_ret (s_idx s =? 0)) then script_loop is_ret r data
+      else let '(v, adv) := script_one s data in v :: script_loop is_ret r (dropN adv data)
+  end.
+
+(* what the script sees, after the interpreter's conversion *)
+Inductive oitem :=
+| OInt (z : Z)                     (* Python int / integral Lua number *)
+| OFlt (size bits : N)             (* Python float / Lua number, as the raw bytes of a float of that size *)
+| OStr (b : list N)                (* Python str (its UTF-8 bytes) / Lua string *)
+| OInvalid                         (* Python: "<invalid value>" (PyUnicode_FromString refused the bytes) *)
+| ONone.
+Inductive lang := Py | Lua.
+
+Definition signed (bits raw : N) : Z :=
+  if raw <? 2 ^ (bits - 1) then Z.of_N raw else (Z.of_N raw - Z.of_N (2 ^ bits))%Z.
+
+(* strict UTF-8 (RFC 3629), as PyUnicode_FromString decodes *)
+Definition cont (b : N) : bool := (128 <=? b) && (b <=? 191).
+Fixpoint utf8_valid (l : list N) : bool :=
+  match l with
+  | [] => true
+  | a :: r =>
+      if a <? 128 then utf8_valid r
+      else if (194 <=? a) && (a <=? 223) then
+        match r with b :: r' => cont b && utf8_valid r' | _ => false end
+      else if (224 <=? a) && (a <=? 239) then
+        match r with
+        | b :: c :: r' =>
+            (if a =? 224 then (160 <=? b) && (b <=? 191) else if a =? 237 then (128 <=? b) && (b <=? 159) else cont b)
+            && cont c && utf8_valid r'
+        | _ => false
+        end
+      else if (240 <=? a) && (a <=? 244) then
+        match r with
+        | b :: c :: d :: r' =>
+            (if a =? 240 then (144 <=? b) && (b <=? 191) else if a =? 244 then (128 <=? b) && (b <=? 143) else cont b)
+            && cont c && cont d && utf8_valid r'
+        | _ => false
+        end
+      else false
+  end.
+
+Definition conv (l : lang) (v : sitem) : oitem :=
+  match v with
+  | VInt size raw =>
+      match l with
+      | Py => OInt (if size =? 8 then Z.of_N raw else signed (8 * size) raw)   (* val.c / val.s / val.i; 8 bytes: unsigned *)
+      | Lua => OInt (signed (8 * size) raw)                                      (* lua_pushinteger, then a double *)
+      end
+  | VFlt size raw => OFlt size raw
+  | VStr b => match l with Py => if utf8_valid b then OStr b else OInvalid | Lua => OStr b end
+  | VNone => ONone
+  end.
+
+(* the "args" list (all argument specs) / the "retval" value (the first return value spec) *)
+Definition script_args (l : lang) (specs : list spec) (data : option (list N)) : option (list oitem) :=
+  match data with
+  | None => None
+  | Some d => if lenN d =? 0 then None else            (* `if (sc_ctx->arglen)`: an empty payload is no payload *)
+              match script_loop false specs d with [] => None | vs => Some (map (conv l) vs) end
+  end.
+Definition script_ret (l : lang) (specs : list spec) (data : option (list N)) : option (list oitem) :=
+  match data with
+  | None => None
+  | Some d => if lenN d =? 0 then None else
+              match script_loop true specs d with [] => None | v :: _ => Some [conv l v] end
+  end.
+
+Definition oitem_eqb (l : lang) (m o : oitem) : bool :=
+  match m, o with
+  | OInt a, OInt b =>
+      match l with
+      | Py => (a =? b)%Z
+      | Lua => (* a Lua number is a double: exact below 2^53, the nearest double above *)
+               if (Z.abs a <? 2 ^ 53)%Z then (a =? b)%Z else (Z.abs (a - b) * 2 ^ 53 <=? Z.abs a)%Z
+      end
+  | OFlt s1 b1, OFlt s2 b2 => (s1 =? s2) && (b1 =? b2)
+  | OStr a, OStr b => list_eqb a b
+  | OInvalid, OInvalid => true
+  | ONone, ONone => true
+  | _, _ => false
+  end.
+Fixpoint olist_eqb (l : lang) (a b : list oitem) : bool :=
+  match a, b with
+  | [], [] => true
+  | x :: a', y :: b' => oitem_eqb l x y && olist_eqb l a' b'
+  | _, _ => false
+  end.
+Definition oopt_eqb (l : lang) (a b : option (list oitem)) : bool :=
+  match a, b with
+  | None, None => true
+  | Some x, Some y => olist_eqb l x y
+  | _, _ => false
+  end.
+
+(* one script run over the call: ctx["args"] at entry, ctx["retval"] at exit (None: the key is absent) *)
+Record sobs := { so_args : option (list oitem); so_ret : option (list oitem) }.
+
+(* does the script see the value that was passed?  "matching", per format:
+   integer-class (d i u x o p e): an integer congruent to the value modulo 2^(8*size)  (the readers sign-extend sizes
+     1, 2, 4 and hand 8 bytes over as unsigned (Python) / signed (Lua); a Lua number above 2^53 is the nearest double);
+   float: a float with exactly the same bits at the spec's size;
+   string: the same bytes (cut to ARG_STR_MAX-3 + "..." like everywhere); NULL -> "NULL"; unreadable -> "<0x...>";
+     Python only: bytes that are not valid UTF-8 arrive as "<invalid value>";
+   char: a string of that one byte (empty for NUL; Python: "<invalid value>" for a byte >= 0x80);
+   struct: the string "struct: NAME{}" (the contents are not available to scripts). *)
+Definition ok_sitem (l : lang) (s : spec) (a : aval) (o : oitem) : bool :=
+  let bits := 8 * s_size s in
+  let str_ok (b : list N) :=
+    match l, o with
+    | Py, OStr x => utf8_valid b && list_eqb x b
+    | Py, OInvalid => negb (utf8_valid b)
+    | Lua, OStr x => list_eqb x b
+    | _, _ => false
+    end in
+  match a with
+  | AInt w =>
+      match s_fmt s with
+      | FChar => str_ok (cstr [w mod 256])
+      | FStr | FStdStr | FFloat | FStruct => false
+      | _ => match o with
+             | OInt z => match l with
+                         | Lua => if s_size s =? 8 then oitem_eqb Lua (OInt (signed 64 (w mod 2 ^ 64))) o
+                                  else (z mod Z.of_N (2 ^ bits) =? Z.of_N (w mod 2 ^ bits))%Z
+                         | Py => (z mod Z.of_N (2 ^ bits) =? Z.of_N (w mod 2 ^ bits))%Z
+                         end
+             | _ => false
+             end
+      end
+  | ASym addr _ => match o with OInt z => (z mod 2 ^ 64 =? Z.of_N addr)%Z | _ => false end
+  | AStr str => str_ok (trunc_str str)
+  | ANull => str_ok null_str
+  | ABad p => str_ok (bad_ptr_text p)
+  | AFlt bits' => match o with OFlt sz b => (sz =? s_size s) && (b =? bits' mod 2 ^ bits) | _ => false end
+  | AStruct => str_ok (struct_text (s_name s))
+  | AScr ints strs flts =>
+      match o with
+      | OInt z => existsb (fun c => oitem_eqb l (OInt c) o) ints
+      | OStr x => existsb (list_eqb x) strs
+      | OFlt sz b => existsb (fun p => (fst p =? sz) && (snd p =? b)) flts
+      | _ => false
+      end
+  | AAnyInt => match o with OInt _ => true | _ => false end
+  | _ => false
+  end.
+Fixpoint ok_sitems (l : lang) (vals : list (spec * aval)) (os : list oitem) : bool :=
+  match vals, os with
+  | [], [] => true
+  | (s, a) :: r, o :: os' => ok_sitem l s a o && ok_sitems l r os'
+  | _, _ => false
+  end.
+(* nothing to hand over: no spec, or only zero-sized structs (the readers treat an empty payload as none) *)
+Definition no_bytes (actual : list (spec * aval)) : bool :=
+  fold_left (fun acc p => acc + need (fst p) (snd p)) actual 0 =? 0.
+Definition ok_script_args (l : lang) (actual : list (spec * aval)) (obs : option (list oitem)) : bool :=
+  if no_bytes actual then match obs with None => true | Some _ => false end else
+  match actual with
+  | [] => match obs with None => true | Some _ => false end
+  | _ => if fits actual then match obs with Some os => ok_sitems l actual os | None => false end
+         else match obs with None => true | Some _ => false end
+  end.
+Definition ok_script_ret (l : lang) (actual : list (spec * aval)) (obs : option (list oitem)) : bool :=
+  if no_bytes actual then match obs with None => true | Some _ => false end else
+  match actual with
+  | [] => match obs with None => true | Some _ => false end
+  | first :: _ => if fits actual then match obs with Some [o] => ok_sitem l (fst first) (snd first) o | _ => false end
+                  else match obs with None => true | Some _ => false end
+  end.
+
 (* test cases as the driver writes them: the specs are taken from the call *)
 Definition judge_of (c : call) (o : observation) (aargs aret : list aval) : judged :=
   {| j_args := combine (filter (fun s => negb (s_idx s =? 0)) (c_specs c)) aargs;
@@ -644,12 +848,37 @@ Definition AStrAt (inp : inputs) (a : N) : aval :=       (* the string the input
 Definition ARegAt (inp : inputs) (k : N) : aval := AInt (nthN (regs inp) k).
 Definition AStkAt (inp : inputs) (k : N) : aval := AInt (nthN (stk inp) (k - 1)).
 Definition ARetAt (inp : inputs) (k : N) : aval := AInt (nthN (rets inp) k).
-Record tcase := { t_call : call; t_obs : observation; t_aargs : list aval; t_aret : list aval }.
-Definition t_agrees (syms : symtab) (t : tcase) : bool := agrees syms (t_call t, t_obs t).
+Record tcase := { t_call : call; t_obs : observation; t_aargs : list aval; t_aret : list aval;
+                  t_py : option sobs; t_lua : option sobs }.       (* `uftrace script` on the same stream *)
+Definition script_model (l : lang) (c : call) : sobs :=
+  let se := run (c_fill c) (c_inp c) false (c_specs c) in
+  let sx := run (c_fill c) (c_inp c) true (c_specs c) in
+  {| so_args := script_args l (c_specs c) (if c_has_args c then payload se else None);
+     so_ret := script_ret l (c_specs c) (if c_has_ret c then payload sx else None) |}.
+Definition script_agrees (l : lang) (c : call) (o : option sobs) : bool :=
+  match o with
+  | None => true
+  | Some so => let m := script_model l c in
+               oopt_eqb l (so_args m) (so_args so) && oopt_eqb l (so_ret m) (so_ret so)
+  end.
+Definition t_agrees (syms : symtab) (t : tcase) : bool :=
+  agrees syms (t_call t, t_obs t) &&
+  (unmodelled (t_call t) || (script_agrees Py (t_call t) (t_py t) && script_agrees Lua (t_call t) (t_lua t))).
+Definition script_ok (l : lang) (j : judged) (o : option sobs) : bool :=
+  match o with
+  | None => true
+  | Some so => ok_script_args l (j_args j) (so_args so) && ok_script_ret l (j_ret j) (so_ret so)
+  end.
 (* the values are shown, and nothing was stored outside the frame's argument buffer *)
 Definition t_ok (t : tcase) : bool :=
   ok_call (judge_of (t_call t) (t_obs t) (t_aargs t) (t_aret t)) &&
-  (o_hi_entry (t_obs t) <=? ARGBUF_SIZE) && (o_hi_exit (t_obs t) <=? ARGBUF_SIZE).
+  (o_hi_entry (t_obs t) <=? ARGBUF_SIZE) && (o_hi_exit (t_obs t) <=? ARGBUF_SIZE) &&
+  script_ok Py (judge_of (t_call t) (t_obs t) (t_aargs t) (t_aret t)) (t_py t) &&
+  script_ok Lua (judge_of (t_call t) (t_obs t) (t_aargs t) (t_aret t)) (t_lua t).
+
+Definition t_ok_script (t : tcase) : bool :=
+  script_ok Py (judge_of (t_call t) (t_obs t) (t_aargs t) (t_aret t)) (t_py t) &&
+  script_ok Lua (judge_of (t_call t) (t_obs t) (t_aargs t) (t_aret t)) (t_lua t).
 
 (* run-length coded byte strings in case files: v < 256 is a byte, otherwise (v / 256) copies of v mod 256 *)
 Definition unrle (l : list N) : list N :=
